@@ -6,6 +6,7 @@ package main
 // same request list; every response is byte-compared with the scanning server's.
 
 import (
+	"bytes"
 	"fmt"
 	"io/fs"
 	"math/rand"
@@ -16,6 +17,7 @@ import (
 	"strings"
 
 	"github.com/Dash-Industry-Forum/livesim2/cmd/livesim2/app"
+	"github.com/Eyevinn/mp4ff/mp4"
 	"verifharness/lib"
 )
 
@@ -45,7 +47,7 @@ func copyTree(src, dst string) error {
 
 // generatedOnDisk: layouts (by note) that are rendered into the scratch vod root next to the bundled assets.
 var generatedOnDisk = []string{"plain-av", "loop-whole-ms-90k", "loop-not-whole-ms-90k", "loop-1001-odd", "loop-one-tick-off",
-	"two-video-same", "two-video-differ", "two-video-differ-1ms", "time-plain", "thumbs", "gap-in-files", "two-mpds", "video-text"}
+	"two-video-same", "two-video-differ", "two-video-differ-1ms", "time-plain", "thumbs", "gap-in-files", "two-mpds", "video-text", "text-shorter"}
 
 // expected admission of the generated layouts (property text: not a whole number of ms, or
 // representations of the reference type disagree => left out)
@@ -359,6 +361,8 @@ func runBundled(c *lib.Ctx, scratch string, rng *rand.Rand) (int, error) {
 		}
 	}
 
+	e.checkTiming()
+
 	// write, shared root
 	rd := filepath.Join(scratch, "rd")
 	type inst struct {
@@ -501,4 +505,86 @@ func replayBundled(c *lib.Ctx, scratch string, in bundledInput) error {
 		fmt.Printf("replay C15: %s: %s\n", f.Key, f.What)
 	}
 	return nil
+}
+
+// tfdtOf returns the decode time of the first fragment of a served media segment.
+func tfdtOf(body []byte) (uint64, bool) {
+	f, err := mp4.DecodeFile(bytes.NewReader(body))
+	if err != nil || len(f.Segments) == 0 || len(f.Segments[0].Fragments) == 0 {
+		return 0, false
+	}
+	fr := f.Segments[0].Fragments[0]
+	if fr.Moof == nil || fr.Moof.Traf == nil || fr.Moof.Traf.Tfdt == nil {
+		return 0, false
+	}
+	return fr.Moof.Traf.Tfdt.BaseMediaDecodeTime(), true
+}
+
+// checkTiming evaluates "left out rather than served with wrong timing" on the scanning server:
+// with $Number$ addressing, segment n of every video/text representation of a served asset must
+// start at the same media instant as segment n of the reference representation, also after the
+// loop wrapped (audio is re-segmented against the reference by design and is compared in C03).
+func (e *bundledEnv) checkTiming() {
+	for _, a := range e.scanAs {
+		var ref *app.VerifC15Rep
+		for i := range a.Reps {
+			if a.Reps[i].ID == a.RefRep {
+				ref = &a.Reps[i]
+			}
+		}
+		if ref == nil || !strings.Contains(ref.MediaURI, "$Number$") || len(ref.Segments) == 0 || a.LoopDurMS <= 0 {
+			continue
+		}
+		segMS := int64(a.LoopDurMS) / int64(len(ref.Segments))
+		if segMS <= 0 {
+			continue
+		}
+		now := 10*int64(a.LoopDurMS) + 1
+		last := now/segMS - 1
+		get := func(r *app.VerifC15Rep, nr int64) (uint64, int) {
+			u := fmt.Sprintf("/livesim2/%s/%s?nowMS=%d", a.AssetPath, strings.ReplaceAll(r.MediaURI, "$Number$", strconv.FormatInt(nr, 10)), now)
+			resp := e.scan.GetRaw(u)
+			e.n++
+			if resp.Status != 200 {
+				return 0, resp.Status
+			}
+			t, ok := tfdtOf(resp.Body)
+			if !ok {
+				return 0, -1
+			}
+			return t, 200
+		}
+		for i := range a.Reps {
+			r := &a.Reps[i]
+			if r.ID == ref.ID || r.ContentType == "audio" || r.ContentType == "image" || !strings.Contains(r.MediaURI, "$Number$") || r.MediaTimescale == 0 {
+				continue
+			}
+			e.c.Count("B:timing-rep:" + r.ContentType)
+			for nr := last - int64(len(ref.Segments)) - 2; nr <= last; nr++ {
+				if nr < 0 {
+					continue
+				}
+				tr, st1 := get(ref, nr)
+				tt, st2 := get(r, nr)
+				if st1 != st2 {
+					e.c.Fail("B:scan:timing:"+a.AssetPath+"/"+r.ID, "admission:wrong-timing:"+r.ContentType+"-disagrees-with-reference",
+						fmt.Sprintf("asset %s is served although %s (%s, %d segments) and the reference %s (%d segments) disagree in duration: at nowMS=%d segment %d of %s gives %d, of %s gives %d",
+							a.AssetPath, r.ID, r.ContentType, len(r.Segments), ref.ID, len(ref.Segments), now, nr, ref.ID, st1, r.ID, st2),
+						bundledInput{Part: "bundled", Instance: "scan", URL: a.AssetPath + "/" + r.ID})
+					break
+				}
+				if st1 != 200 {
+					continue
+				}
+				// same instant: tt/ts_r == tr/ts_ref
+				if tt*uint64(ref.MediaTimescale) != tr*uint64(r.MediaTimescale) {
+					e.c.Fail("B:scan:timing:"+a.AssetPath+"/"+r.ID, "admission:wrong-timing:"+r.ContentType+"-disagrees-with-reference",
+						fmt.Sprintf("asset %s is served although %s (%s, %d segments) and the reference %s (%d segments) disagree in duration: segment %d of %s starts at %d/%d s, of %s at %d/%d s (nowMS=%d)",
+							a.AssetPath, r.ID, r.ContentType, len(r.Segments), ref.ID, len(ref.Segments), nr, r.ID, tt, r.MediaTimescale, ref.ID, tr, ref.MediaTimescale, now),
+						bundledInput{Part: "bundled", Instance: "scan", URL: a.AssetPath + "/" + r.ID})
+					break
+				}
+			}
+		}
+	}
 }
